@@ -11,6 +11,9 @@ cp $OUT/patch.diff $DEST/patch.diff
 DEMO=$(ls $OUT/demo_test.go $OUT/demo/main.go 2>/dev/null | head -1)
 cp $DEMO $DEST/
 cp $OUT/NOTES.md $DEST/NOTES.md 2>/dev/null
+if [ "${SEED_PHASE:-all}" = "check" ] && [ -f $DEST/.confirm ]; then
+  BUILD=$(sed -n 1p $DEST/.confirm); WITH=$(sed -n 2p $DEST/.confirm); WITHOUT=$(sed -n 3p $DEST/.confirm); BASE=$(sed -n 4p $DEST/.confirm)
+else
 # --- confirm in the scratch worktree
 cd $WT && git checkout -q -- . && git clean -fdq -e '*.txt' >/dev/null 2>&1
 git apply $DEST/patch.diff || { echo "patch does not apply in worktree"; exit 2; }
@@ -36,6 +39,12 @@ PY
 )
 rm -f /tmp/seed_$ID.json
 git checkout -q -- .
+fi
+if [ "${SEED_PHASE:-all}" = "confirm" ]; then
+  echo "confirmed: build='$BUILD' with='$WITH' without='$WITHOUT' base='$BASE'"
+  printf '%s\n%s\n%s\n%s\n' "$BUILD" "$WITH" "$WITHOUT" "$BASE" > $DEST/.confirm
+  exit 0
+fi
 # --- run the check against /repo with the patch applied
 cd /repo && git apply $DEST/patch.diff || { echo "patch does not apply in /repo"; exit 2; }
 cd /verif && ./check $PROP > $DEST/check_output.txt 2>&1; RC=$?
